@@ -274,13 +274,8 @@ NWARM = pick(5, len(WARM))
 NW2 = pick(6, len(W2))
 
 
-def warm_handler(k_e: int, k_i: int, w: int, s1: int, s2: int, nseg: int, slash: bool, listing: bool) -> bool:
-    """
-    pre: 0 <= k_e < NKINDS and 0 <= k_i < NKINDS and 0 <= w < NWARM
-    pre: 0 <= s1 < NW2 and 0 <= s2 < NW2 and 1 <= nseg <= 2
-    pre: (not QUICK) or (k_i == 1 and k_e == 1 and not slash)
-    post: _
-    """
+def _warm_handler(k_e, k_i, w, s1, s2, nseg, slash, listing):
+    # (contract on the partitioned wrappers)
     # the server builds one handler and serves every connection with it: whatever the handler remembers from the
     # first request (caches, memoised checks) must not widen what the second one reaches
     fs = build(k_e, k_i, K_FILE)
@@ -289,13 +284,33 @@ def warm_handler(k_e: int, k_i: int, w: int, s1: int, s2: int, nseg: int, slash:
         h = StaticFileHandler(ROOT, enable_directory_listing=listing)
         r0 = _handle(h, _request(WARM[w]))
         if not _check_response(r0, WARM[w]):
-            return V(False)
+            return False
         segs = [W2[s1], W2[s2]][:nseg]
         path = "/" + "/".join(segs) + ("/" if slash else "")
         r = _handle(h, _request(path))
-        return V(_check_response(r, path))
+        return _check_response(r, path)
     finally:
         fs.uninstall()
+
+
+def warm_handler_listing(k_e: int, k_i: int, w: int, s1: int, s2: int, nseg: int, slash: bool) -> bool:
+    """
+    pre: 0 <= k_e < NKINDS and 0 <= k_i < NKINDS and 0 <= w < NWARM
+    pre: 0 <= s1 < NW2 and 0 <= s2 < NW2 and 1 <= nseg <= 2
+    pre: (not QUICK) or (k_i == 1 and k_e == 1 and not slash)
+    post: _
+    """
+    return V(_warm_handler(k_e, k_i, w, s1, s2, nseg, slash, True))
+
+
+def warm_handler_plain(k_e: int, k_i: int, w: int, s1: int, s2: int, nseg: int, slash: bool) -> bool:
+    """
+    pre: 0 <= k_e < NKINDS and 0 <= k_i < NKINDS and 0 <= w < NWARM
+    pre: 0 <= s1 < NW2 and 0 <= s2 < NW2 and 1 <= nseg <= 2
+    pre: (not QUICK) or (k_i == 1 and k_e == 1 and not slash)
+    post: _
+    """
+    return V(_warm_handler(k_e, k_i, w, s1, s2, nseg, slash, False))
 
 
 # ---- every regular file inside the root is reachable by its own name --------------------------
@@ -489,7 +504,12 @@ OBLIGATIONS = [
        functions=FN, stubs=["ModelFS"]),
     Ob("root_and_single", root_and_single, quick=300, thorough=900,
        symbolic="kinds of 2 entries, empty path / one segment, trailing slash, listing flag", functions=FN, stubs=["ModelFS"]),
-    Ob("warm_handler", warm_handler, quick=600, thorough=2400,
+    Ob("warm_handler_listing", warm_handler_listing, quick=600, thorough=2400,
+       symbolic="a first request out of 5 (quick) / 10 (root itself, '/d/..', a file, a listing, a refused escape, ...), then a second "
+                "request of 1-2 segments over 6 (quick) / 12 names incl. '..', siblings and a file directly in the root's parent -- both "
+                "served by the same handler object; thorough: also the kinds of 2 tree entries and the trailing slash",
+       functions=FN, stubs=["ModelFS"]),
+    Ob("warm_handler_plain", warm_handler_plain, quick=600, thorough=2400,
        symbolic="a first request out of 5 (quick) / 10 (root itself, '/d/..', a file, a listing, a refused escape, ...), then a second "
                 "request of 1-2 segments over 6 (quick) / 12 names incl. '..', siblings and a file directly in the root's parent -- both "
                 "served by the same handler object; thorough: also the kinds of 2 tree entries and the trailing slash",
